@@ -149,7 +149,7 @@ m = {
                  "kind_free_text": "verification-condition generator written for this task: re-reads /repo/lomond/*.py with ast on every run, symbolically executes each function under contract against sidecar contracts (/verif/contracts) and RFC spec functions (/verif/spec), one SMT query per path x clause, discharged by z3 5.1.0 with cvc5 1.0.3 / z3 4.8.12 as fall-back; refuted obligations are replayed on the real code by /verif/replay under /venv/bin/python"}],
     "checks": [],
     "not_applicable": [],
-    "notes": "Approach, trusted base, per-property designs and the seeded-change matrix: DESIGN.md. Known findings / fixed defects: known_findings.json.",
+    "notes": "Approach, trusted base, per-property designs and the seeded-change matrix: DESIGN.md (section 9 is the as-built record; 9.12 = fourth session). Known findings / fixed defects: known_findings.json. Verdicts: exit 0 every obligation proved; 1 an obligation refuted (counter-model, replayed on the real code where possible) or - when the deductive part is undecided for a changed function - a failing input found by the property's replay battery on the real code (obligation=exploration:replay-battery; bounded exploration, never counted as proved); 2 undecided; 3 checker fault.",
 }
 for p in props:
     if p in CLAIMED:
